@@ -12,6 +12,7 @@ THEOREMS = ["OQuPyVerif.Props.C04.trace_preserved", "OQuPyVerif.Props.C04.hermit
             "OQuPyVerif.Props.C04.kraus_step_physical", "OQuPyVerif.Props.C04.kraus_steps_physical",
             "OQuPyVerif.Props.C04.kraus_prefix_physical", "OQuPyVerif.Props.C04.gram_is_physical",
             "OQuPyVerif.Props.C04.ancilla_states_physical",
+            "OQuPyVerif.Props.C04.kraus_steps_posSemidef", "OQuPyVerif.Props.C04.ancilla_states_posSemidef",
             # PT-TEBD norm and reduced-state traces (C10) and the Gibbs state (C11)
             "OQuPyVerif.Props.C10.norm_step", "OQuPyVerif.Props.C10.norm_one",
             "OQuPyVerif.Props.C10.site_dissipator_trace_annihilating",
@@ -21,7 +22,7 @@ THEOREMS = ["OQuPyVerif.Props.C04.trace_preserved", "OQuPyVerif.Props.C04.hermit
             "OQuPyVerif.Props.C10.site_liouvillian_first_order_kraus",
             "OQuPyVerif.Props.C11.gibbs_trace_one", "OQuPyVerif.Props.C11.gibbs_hermitian",
             "OQuPyVerif.Props.C11.gibbs_normalised_hermitian"]
-EXTRA_MODULES = ["OQuPyVerif.Props.C10", "OQuPyVerif.Props.C11", "OQuPyVerif.Props.C04Pos",
+EXTRA_MODULES = ["OQuPyVerif.Props.C10", "OQuPyVerif.Props.C11", "OQuPyVerif.Props.C04Pos", "OQuPyVerif.Props.C04PosComplex",
                  "OQuPyVerif.Props.C10Gksl"]
 TOL = 1e-8
 HYP_TOL = 1e-20      # residuals are squared moduli
